@@ -114,6 +114,7 @@ structure St where
   script : List Beh
   started : Bool := false
   commits : Nat := 0           -- number of transitions uncommitted → committed (onCommit calls)
+  hist : List Wire := []       -- ghost: what the application has produced so far (SendMsg / CloseSend calls)
 deriving Repr
 
 /-- result of one client operation as the application sees it -/
@@ -135,9 +136,9 @@ def St.curIdx (st : St) : Nat := st.atts.length
 def St.curDead (st : St) : Bool := match st.cur with | some a => a.dead | none => true
 
 def St.updCur (st : St) (f : Att → Att) : St :=
-  match st.atts.reverse with
-  | [] => st
-  | a :: rest => { st with atts := (f a :: rest).reverse }
+  match st.atts.getLast? with
+  | none => st
+  | some a => { st with atts := st.atts.dropLast ++ [f a] }
 
 /-- `commitAttemptLocked`. -/
 def St.commit (st : St) : St :=
@@ -285,45 +286,83 @@ def rawToRes : Raw → Res
   | .err c => .err c
   | .blocks => .blocked
 
+/-- how `withRetry` classifies the outcome of `op(a)` -/
+inductive Outcome
+  | blocked
+  | success      -- err == nil, or io.EOF on a stream whose status is OK
+  | failure
+deriving Repr, DecidableEq
+
+def St.classify (st : St) : Raw → Outcome
+  | .blocks => .blocked
+  | .nil | .nilMsg _ | .nilHdr | .nilNoHdr => .success
+  | .eof => if st.curCode = 0 then .success else .failure
+  | .err _ => .failure
+
+/-- the status code of the error `op(a)` returned (0 for io.EOF). -/
+def Raw.code : Raw → Nat
+  | .err c => c
+  | _ => 0
+
+/-- `retryLocked` up to the decision: `attempt.finish(lastErr)`, then `shouldRetry`. -/
+def St.decideRetry (st : St) (raw : Raw) : St × Decision :=
+  let st2 := st.finishAttempt raw.code
+  match st2.cur with
+  | none => (st2, .noRetry)
+  | some a =>
+    let (cs', d) := shouldRetry st2.disableRetry st2.pol st2.cs (attemptView a) 0
+    ({ st2 with cs := cs' }, d)
+
+/-- the delay `shouldRetry` waits for decision `d` on the failed current attempt. -/
+def St.delayOf (st : St) (d : Decision) : List Delay :=
+  match d with
+  | .backoff _ true =>
+    (match st.cur with
+     | some a => (match parsePushback (attemptView a).pushback with | .ms n => [.pushback n] | _ => [])
+     | none => [])
+  | .backoff _ false => [.backoff (st.cs.sincePushback - 1)]
+  | _ => []
+
+/-- `retryLocked` after a positive decision: counters, new attempt, `replayBufferLocked`. -/
+def St.startRetry (st : St) (d : Decision) : St × List Ev :=
+  { st with cs := afterDecision st.cs d }.replayAll
+
 /-- `withRetry(op, onSuccess)`, with `retryLocked` inlined.  `fuel` bounds the number of new
-    attempts made inside one operation (see `GrpcProofs` for why it never runs out). -/
+    attempts made inside one operation (`GrpcProofs.C18.fuel_suffices`: it never runs out). -/
 def St.withRetry : Nat → St → COp → St × Res × List Ev × List Delay
   | fuel, st, op =>
-    if st.cs.committed then
-      let (st1, raw, ev) := st.applyOp op
-      (st1, rawToRes raw, ev, [])
-    else
-      let (st1, raw, ev) := st.applyOp op
-      let okEof := raw = .eof ∧ st1.curCode = 0
-      match raw with
-      | .blocks => (st1, .blocked, ev, [])
-      | .nil | .nilMsg _ | .nilHdr | .nilNoHdr => (st1.onSuccess op, rawToRes raw, ev, [])
-      | _ =>
-        if okEof then (st1.onSuccess op, .eof, ev, [])
-        else
-          -- retryLocked(a, err)
-          let st2 := st1.finishAttempt (match raw with | .err c => c | _ => 0)
-          match st2.cur with
-          | none => (st2, .outOfFuel, ev, [])
-          | some a =>
-            let (cs', d) := shouldRetry st2.disableRetry st2.pol st2.cs (attemptView a) 0
-            let st3 := { st2 with cs := cs' }
-            match d with
-            | .noRetry => (st3.commit, rawToRes raw, ev, [])
-            | .exhausted =>
-              (st3.commit, (match raw with | .err c => .errExhausted c | _ => .exhaustedEof), ev, [])
-            | .transparent | .backoff _ _ =>
-              match fuel with
-              | 0 => (st3, .outOfFuel, ev, [])
-              | fuel + 1 =>
-                let dl : List Delay := match d with
-                  | .backoff _ true => (match parsePushback (attemptView a).pushback with | .ms n => [.pushback n] | _ => [])
-                  | .backoff _ false => [.backoff st2.cs.sincePushback]
-                  | _ => []
-                let st4 := { st3 with cs := afterDecision cs' d }
-                let (st5, ev2) := st4.replayAll
-                let (st6, res, ev3, dl2) := St.withRetry fuel st5 op
-                (st6, res, ev ++ ev2 ++ ev3, dl ++ dl2)
+    let (st1, raw, ev) := st.applyOp op
+    if st.cs.committed then (st1, rawToRes raw, ev, [])
+    else match st1.classify raw with
+      | .blocked => (st1, .blocked, ev, [])
+      | .success => (st1.onSuccess op, rawToRes raw, ev, [])
+      | .failure =>
+        let (st3, d) := st1.decideRetry raw
+        match d with
+        | .noRetry => (st3.commit, rawToRes raw, ev, [])
+        | .exhausted => (st3.commit, (match raw with | .err c => .errExhausted c | _ => .exhaustedEof), ev, [])
+        | _ =>
+          match fuel with
+          | 0 => (st3, .outOfFuel, ev, [])
+          | fuel + 1 =>
+            let (st5, ev2) := st3.startRetry d
+            let (st6, res, ev3, dl2) := St.withRetry fuel st5 op
+            (st6, res, ev ++ ev2 ++ ev3, st3.delayOf d ++ dl2)
+
+/-- the wire item an operation still has to put on the current attempt and into the buffer. -/
+def St.pendOf (st : St) : COp → List Wire
+  | .send size =>
+    let item := Wire.msg (if size = 0 then 0 else st.seq) size
+    if st.clientStreams then [item] else [item, .half]
+  | .half => [.half]
+  | .recv => []
+  | .header => []
+
+/-- `op(a)` returned an error (io.EOF or a status). -/
+def Raw.isFail : Raw → Bool
+  | .eof => true
+  | .err _ => true
+  | _ => false
 
 /-! ### application-level operations (each ends at a quiescent point: the server reacts) -/
 
@@ -335,42 +374,57 @@ def St.opNew (st : St) : St × Res × List Ev × List Delay :=
   let st2 := { st1 with started := true }.buffer 0 .start
   (st2.settle, .ok, ev, [])
 
-def St.opSend (fuel : Nat) (st : St) (size : Nat) : St × Res × List Ev × List Delay :=
+/-- SendMsg up to `withRetry`: the application has now produced the message (ghost `hist`); a
+    non-client-streaming RPC marks `sentLast`. -/
+def St.beginSend (st : St) (size : Nat) : St :=
   let st := { st with seq := st.seq + 1 }
-  if st.sentLast then ((st.finish 13).settle, .err 13, [], [])
+  { st with hist := st.hist ++ st.pendOf (.send size), sentLast := st.sentLast || !st.clientStreams }
+
+/-- what SendMsg / RecvMsg do with the result of `withRetry`: `cs.finish(err)` on a real error
+    (RecvMsg also on io.EOF), then the server gets to react. -/
+def St.endSend (st : St) (res : Res) : St :=
+  (match res with
+   | .err c => st.finish c
+   | .errExhausted c => st.finish c
+   | .exhaustedEof => st.finish 2
+   | _ => st).settle
+
+def St.endRecv (st : St) (res : Res) : St :=
+  (match res with
+   | .err c => st.finish c
+   | .errExhausted c => st.finish c
+   | .eof => st.finish 0
+   | _ => st).settle
+
+def St.opSend (fuel : Nat) (st : St) (size : Nat) : St × Res × List Ev × List Delay :=
+  if st.sentLast then ((({ st with seq := st.seq + 1 } : St).finish 13).settle, .err 13, [], [])
   else
-    let st := if !st.clientStreams then { st with sentLast := true } else st
-    let (st1, res, ev, dl) := St.withRetry fuel st (.send size)
-    let st2 := match res with
-      | .err c => st1.finish c
-      | .errExhausted c => st1.finish c
-      | .exhaustedEof => st1.finish 2
-      | _ => st1
-    (st2.settle, res, ev, dl)
+    let r := St.withRetry fuel (st.beginSend size) (.send size)
+    (r.1.endSend r.2.1, r.2.1, r.2.2.1, r.2.2.2)
+
+def St.beginClose (st : St) : St := { st with sentLast := true, hist := st.hist ++ [.half] }
 
 def St.opClose (fuel : Nat) (st : St) : St × Res × List Ev × List Delay :=
   if st.sentLast then (st.settle, .ok, [], [])
   else
-    let st := { st with sentLast := true }
-    let (st1, _, ev, dl) := St.withRetry fuel st .half
-    (st1.settle, .ok, ev, dl)
+    let r := St.withRetry fuel st.beginClose .half
+    (r.1.settle, .ok, r.2.2.1, r.2.2.2)
 
 def St.opRecv (fuel : Nat) (st : St) : St × Res × List Ev × List Delay :=
-  let (st1, res, ev, dl) := St.withRetry fuel st .recv
-  let st2 := match res with
-    | .err c => st1.finish c
-    | .errExhausted c => st1.finish c
-    | .eof => st1.finish 0
-    | _ => st1
-  (st2.settle, res, ev, dl)
+  let r := St.withRetry fuel st .recv
+  (r.1.endRecv r.2.1, r.2.1, r.2.2.1, r.2.2.2)
+
+def St.endHeader (st : St) (res : Res) : St :=
+  (match res with
+   | .err c => st.finish c
+   | .errExhausted c => st.finish c
+   | .nohdr => st.finish 0
+   | _ => st).settle
 
 def St.opHeader (fuel : Nat) (st : St) : St × Res × List Ev × List Delay :=
-  let (st1, res, ev, dl) := St.withRetry fuel st .header
-  match res with
-  | .err c => ((st1.finish c).settle, .nohdr, ev, dl)
-  | .errExhausted c => ((st1.finish c).settle, .nohdr, ev, dl)
-  | .nohdr => ((st1.finish 0).settle, .nohdr, ev, dl)
-  | r => (st1.settle, r, ev, dl)
+  let r := St.withRetry fuel st .header
+  (r.1.endHeader r.2.1,
+   (match r.2.1 with | .err _ => .nohdr | .errExhausted _ => .nohdr | x => x), r.2.2.1, r.2.2.2)
 
 /-- application script -/
 inductive AppOp
@@ -418,5 +472,27 @@ def St.run (fuel : Nat) : St → List AppOp → St × List Res × List Ev
     let (st1, r, ev, _) := st.step fuel o
     let (st2, rs, evs) := St.run fuel st1 os
     (st2, r :: rs, ev ++ evs)
+
+/-! ### vocabulary of the C18 statements -/
+
+/-- what a replay buffer puts on the wire of a fresh attempt (a non-client-streaming send also
+    half-closes). -/
+def wireOf (clientStreams : Bool) : List ROp → List Wire
+  | [] => []
+  | .start :: r => wireOf clientStreams r
+  | .msg q z :: r => (if clientStreams then [Wire.msg q z] else [Wire.msg q z, Wire.half]) ++ wireOf clientStreams r
+  | .half :: r => Wire.half :: wireOf clientStreams r
+
+/-- the buffer of an RPC that was started: the stream-creating op first, and only there. -/
+def startsOnce : List ROp → Bool
+  | .start :: r => !r.contains .start
+  | _ => false
+
+/-- the fuel that is always enough: one transparent retry plus the remaining policy attempts. -/
+def budget (cs : CS) (pol : Option Policy) : Nat :=
+  (if cs.firstAttempt then 1 else 0) +
+  (match pol with | some rp => (rp.maxAttempts - cs.numRetries).toNat | none => 0)
+
+def St.retryBudget (st : St) : Nat := budget st.cs st.pol
 
 end GrpcModel.RetryLoop
